@@ -15,6 +15,8 @@
 // (s, phi, t, tan(theta), voxel sizes, FOV radius only); it never looks at a computed row.
 #include "explicit_p.h"
 #include "stir/recon_buildblock/DataSymmetriesForBins.h"
+#include "stir/recon_buildblock/SymmetryOperation.h"
+#include <typeinfo>
 #include "stir/ProjDataInfoCylindrical.h"
 #include "stir/ProjDataInfoCylindricalNoArcCorr.h"
 #include <algorithm>
@@ -262,6 +264,7 @@ struct Run
   int lors = 1;
   bool cyl = true;
   bool adb = false;
+  bool mask_view_s_sym = false; // see finding C03-F2 in check()
   shared_ptr<ProjMatrixByBinUsingRayTracing> m;
   std::map<RefKey, Ref> refs;
   std::vector<BinKey> requested; // all bins requested so far (for OP_REGET)
@@ -412,7 +415,15 @@ Run::get(const Bin& bin, const char* how)
   requested.push_back(key(bin));
   // statistics: non-trivial get = served through a non-identity symmetry operation, or (potentially) from the cache after an event
   {
-    const bool via_sym = !m->get_symmetries_ptr()->is_basic(bin);
+    Bin basic = bin;
+    const unique_ptr<SymmetryOperation> sop = m->get_symmetries_ptr()->find_symmetry_operation_from_basic_bin(basic);
+    const bool via_sym = !sop->is_trivial();
+    {
+      // coverage histogram of the symmetry-operation classes (statistics only)
+      std::string n = typeid(*sop).name();
+      const std::size_t pos = n.find("CartesianGrid_");
+      stats().cls("symmetry operation: " + (pos == std::string::npos ? (via_sym ? n : std::string("trivial")) : n.substr(pos + 14, n.size() - pos - 15)));
+    }
     const bool again = since_event.count(key(bin)) > 0;
     const bool nt = via_sym || (cache != 0 && had_event) || (cache != 0 && again);
     if (via_sym)
@@ -590,6 +601,8 @@ Run::run_op(const json& op, int)
     case OP_SYM:
       {
         const int k = int(((arg(1) % 5) + 5) % 5);
+        if (mask_view_s_sym && (k == 0 || k == 1 || k == 3))
+          return Result::pass(); // finding C03-F2
         sym[k] = !sym[k];
         std::string why;
         if (!probe(g, i, why))
@@ -684,6 +697,18 @@ check(const json& c)
   R.lors = c["lors"].get<int>();
   R.cyl = c["cyl_fov"].get<bool>();
   R.adb = c["adb"].get<bool>();
+  // KNOWN FINDING C03-F2 (work/notes/C03_findings.md): with use_actual_detector_boundaries the LOR of a bin is the
+  // line between the detector centres, which for odd tangential positions is rotated by half a view w.r.t. the
+  // interleaved sinogram coordinate; the view symmetries (90-phi, 180-phi) and swap_s mirror the sinogram
+  // coordinates and are left enabled, so derived rows belong to another LOR.  Excluded narrowly by construction:
+  // a history that requests use_actual_detector_boundaries keeps these three switches off (VERIF_NO_EXCLUDE=1 lifts this).
+  R.mask_view_s_sym = R.adb && std::getenv("VERIF_NO_EXCLUDE") == nullptr;
+  if (R.mask_view_s_sym && (R.sym[0] || R.sym[1] || R.sym[3]))
+    {
+      R.sym[0] = R.sym[1] = R.sym[3] = false;
+      stats().excluded_known++;
+      stats().count("excluded: view / swap_s symmetries switched off in a history with use_actual_detector_boundaries (finding C03-F2)");
+    }
   {
     std::string why;
     if (!R.probe(0, 0, why))
@@ -756,9 +781,23 @@ gen_config(Src& s, int size)
   po.allow_arccorr = true;
   vg::ImageOpts io;
   io.max_xy = size < 50 ? 17 : 33;
+  // bias (not a restriction): half of the cases get the geometry class in which all five symmetries can be active
+  // (no view offset, number of views a multiple of 4, non-TOF) - DataSymmetriesForBins_PET_CartesianGrid disables them otherwise
+  const bool want_full_sym = s.coin();
   c["scA"] = vg::gen_scanner(s, so);
+  for (int tries = 0; want_full_sym && tries < 6 && c["scA"]["ndet"].get<int>() % 8 != 0; ++tries)
+    c["scA"] = vg::gen_scanner(s, so);
+  if (want_full_sym)
+    c["scA"]["tilt"] = 0.;
   shared_ptr<Scanner> scA = vg::make_scanner(c["scA"]);
   c["pdiA"] = vg::gen_pdi(s, *scA, po);
+  if (want_full_sym)
+    {
+      if (c["pdiA"]["views"].get<int>() % 4 != 0)
+        c["pdiA"]["views"] = c["scA"]["ndet"].get<int>() / 2;
+      if (s.chance(3, 4))
+        c["pdiA"]["tof_mash"] = 0;
+    }
   c["imgA"] = vg::gen_image(s, io);
   if (s.chance(2, 3))
     c["scB"] = c["scA"];
@@ -776,7 +815,7 @@ gen_config(Src& s, int size)
   c["cache"] = int(s.pick(std::vector<int>{ 0, 1, 1, 2, 2 }));
   c["lors"] = int(s.small(1, 4));
   c["cyl_fov"] = s.chance(3, 4);
-  c["adb"] = s.chance(1, 6);
+  c["adb"] = s.chance(1, 8);
   return c;
 }
 
